@@ -6,11 +6,43 @@ package main
 
 import (
 	"fmt"
+	"os"
+	"sync"
+	"time"
 	"sort"
 	"strings"
 )
 
+var heapDebugOnce sync.Once
+
 func (w *Worker) park(s *State, at string) {
+	if os.Getenv("SYMGO_DEBUG_HEAP") != "" {
+		heapDebugOnce.Do(func() {
+			c := &cloner{memo: map[*Obj]*Obj{}}
+			t0 := time.Now()
+			n := s.clone()
+			_ = n
+			for _, f := range s.frames {
+				c.vals(f.env)
+			}
+			for _, o := range s.globals {
+				c.obj(o)
+			}
+			k := w.canon(s)
+			fmt.Fprintf(os.Stderr, "HEAP objects=%d globals=%d frames=%d clone+canon=%v canonlen=%d\n", len(c.memo), len(s.globals), len(s.frames), time.Since(t0), len(k))
+			big := map[string]int{}
+			for g, o := range s.globals {
+				cc := &cloner{memo: map[*Obj]*Obj{}}
+				cc.obj(o)
+				big[g.String()] = len(cc.memo)
+			}
+			for g, n := range big {
+				if n > 20 {
+					fmt.Fprintf(os.Stderr, "  global %s reaches %d objects\n", g, n)
+				}
+			}
+		})
+	}
 	if w.waiting == nil {
 		w.waiting = map[string][]*State{}
 	}
@@ -23,7 +55,12 @@ func (w *Worker) canon(s *State) string {
 	r := &renderer{tc: w.tc, ids: map[*Obj]int{}}
 	for _, f := range s.frames {
 		fmt.Fprintf(&r.sb, "F %s b%d i%d c%v d%v [", f.fn.String(), f.block.Index, f.ip, f.catch, f.discard)
-		for _, v := range f.env {
+		lv := f.info.live[f.block.Index]
+		for i, v := range f.env {
+			if !lv[i] {
+				r.sb.WriteString("-|") // dead register: cannot influence the rest of the run
+				continue
+			}
 			r.val(v)
 			r.sb.WriteByte('|')
 		}
@@ -47,6 +84,11 @@ func (w *Worker) canon(s *State) string {
 	}
 	var gs []string
 	for g := range s.globals {
+		// globals of packages whose code is not executed are never written (stubs do not touch
+		// them): they are equal in all states and are left out of the canonical form
+		if g.Pkg == nil || !strings.HasPrefix(g.Pkg.Pkg.Path(), "tkestack.io/kvass/") {
+			continue
+		}
 		gs = append(gs, g.String())
 	}
 	sort.Strings(gs)
@@ -77,6 +119,12 @@ func (w *Worker) canon(s *State) string {
 	sort.Strings(lk)
 	r.sb.WriteString("L " + strings.Join(lk, ",") + "\n")
 	fmt.Fprintf(&r.sb, "O %p A %p\n", s.obs, s.abst)
+	var ch []string
+	for k, v := range s.chosen {
+		ch = append(ch, fmt.Sprintf("%s=%d", k, v))
+	}
+	sort.Strings(ch)
+	r.sb.WriteString("CH " + strings.Join(ch, ",") + "\n")
 	for _, p := range s.pending {
 		fmt.Fprintf(&r.sb, "P %s t%d\n", p.id, p.pred.ID)
 	}
